@@ -196,26 +196,36 @@ class Option(Evaluatable[A]):
         """
         if dotted_key_exists(self.key, options):
             value = get_dotted_key(self.key, options)
-            return {self.key}.union(
+            keys = {self.key}.union(
                 *(Template(text).keys(options) for text in _templated_strings(value))
             )
         elif self.default is not MISSING:
-            return self.default.keys(options)
+            keys = self.default.keys(options)
         else:
             raise KeyNotFoundError(self.key, self)
+
+        if self.domain is not MISSING:
+            keys = keys | self.domain.keys(options)
+
+        return keys
 
     def explain(self, options: Optional[Options] = None) -> Set[str]:
         """Returns the keys required by the option."""
         options = options or {}
         if dotted_key_exists(self.key, options):
             value = get_dotted_key(self.key, options)
-            return {self.key}.union(
+            keys = {self.key}.union(
                 *(Template(text).explain(options) for text in _templated_strings(value))
             )
         elif self.default is not MISSING:
-            return self.default.explain(options)
+            keys = self.default.explain(options)
         else:
-            return {self.key}
+            keys = {self.key}
+
+        if self.domain is not MISSING:
+            keys = keys | self.domain.explain(options)
+
+        return keys
 
     def __repr__(self) -> str:
         return (
